@@ -65,6 +65,18 @@ MUTANTS = [
             recv_ids = FrozenOrderedSet()""",
          needs="a part that both receives and sends in the same round with a "
                "peer doing the converse (deadlock / cyclic part graph)"),
+    dict(id="c08-part-programs-rotated", prop="C08",
+         file="distributed/execute.py",
+         old="""    return part_id_to_prg
+""",
+         new="""    pids = sorted(part_id_to_prg)
+    if len(pids) >= 3:
+        part_id_to_prg = {pid: part_id_to_prg[pids[(i + 1) % len(pids)]]
+                          for i, pid in enumerate(pids)}
+    return part_id_to_prg
+""",
+         needs="three or more parts on a rank and real code generation: the "
+               "program registered for a part is another part's program"),
     dict(id="c08-tag-numbering-local", prop="C08",
          file="distributed/tags.py",
          old="        for sym_tag in flatten(all_tags):",
